@@ -78,6 +78,16 @@ pub(crate) fn remove_all<Fd: AsFd>(dirfd: Fd, name: &Path) -> Result<(), Error> 
         })?;
     }
 
+    // "." and ".." do not name an entry of dirfd -- opening them below would make
+    // us delete the contents of dirfd itself or of its parent directory.
+    let name_bytes = name.as_os_str().as_bytes();
+    if name_bytes == b"." || name_bytes == b".." {
+        Err(ErrorImpl::InvalidArgument {
+            name: "name".into(),
+            description: "remove_all cannot be applied to '.' or '..'".into(),
+        })?;
+    }
+
     // Fast path -- try to remove it with unlink/rmdir.
     if remove_inode(dirfd, name).ignore_enoent().is_ok() {
         return Ok(());
